@@ -76,6 +76,7 @@ package geom
 //@   ensures HasZ(result4) == hasZ && HasM(result4) == hasM && result5 == Dim(result4)
 
 //@ func verifTWKBMetadataRoundTrip
+//@   inlinecallees writeInitialHeaders
 //@   requires 4 <= kind && kind <= 7
 //@   ensures result5 == nil && result0 == hasExt && result1 == hasSize && result2 == hasBBox && result3 == hasIDs && !result4
 
@@ -87,6 +88,7 @@ package geom
 
 
 //@ func verifTWKBHeadersRoundTrip
+//@   inlinecallees writeInitialHeaders
 //@   requires 4 <= kind && kind <= 7 && -8 <= precXY && precXY <= 7 && 0 <= precZ && precZ <= 7 && 0 <= precM && precM <= 7
 //@   ensures result10 == nil
 //@   ensures result0 == kind
